@@ -1,1 +1,562 @@
-fn main() {}
+//! C18 driver: WDT / WDL write -> parse -> rewrite -> convert on TLC-generated shapes, an independent
+//! chunk walker over the produced bytes, and the tile <-> world maps on all 4096 tiles.
+//! Records observations only; Trace_WdtWdl.tla decides.
+use std::io::Cursor;
+use wow_wdl::conversion::convert_wdl_file;
+use wow_wdl::parser::WdlParser;
+use wow_wdl::types::{
+    BoundingBox, HeightMapTile, HolesData, M2Placement, M2VisibilityInfo, ModelPlacement, Vec3d, WdlFile,
+};
+use wow_wdl::version::WdlVersion;
+use wow_wdt::chunks::maid::MaidSection;
+use wow_wdt::chunks::mphd::FileDataIds;
+use wow_wdt::chunks::{MaidChunk, MphdChunk, MphdFlags, ModfChunk, ModfEntry, MwmoChunk};
+use wow_wdt::conversion::convert_wdt;
+use wow_wdt::version::WowVersion;
+use wow_wdt::{tile_to_world, world_to_tile, WdtFile, WdtReader, WdtWriter};
+use wverif_common::*;
+
+// ------------------------------------------------------------------------------------------
+// independent chunk walker: knows only <tag:4, size:u32le, payload>
+// ------------------------------------------------------------------------------------------
+struct Obs {
+    tag: String,
+    off: usize,
+    size: usize,
+    tok: String,
+}
+
+fn walk(bytes: &[u8]) -> (Vec<Obs>, usize) {
+    let mut v = Vec::new();
+    let mut cur = 0usize;
+    while cur + 8 <= bytes.len() {
+        let mut t = [bytes[cur + 3], bytes[cur + 2], bytes[cur + 1], bytes[cur]];
+        for b in t.iter_mut() {
+            if !b.is_ascii_graphic() {
+                *b = b'?';
+            }
+        }
+        let size = u32::from_le_bytes([bytes[cur + 4], bytes[cur + 5], bytes[cur + 6], bytes[cur + 7]]) as usize;
+        let end = cur.saturating_add(8).saturating_add(size);
+        let pay = if end <= bytes.len() { &bytes[cur + 8..end] } else { &bytes[cur + 8..] };
+        v.push(Obs { tag: String::from_utf8_lossy(&t).to_string(), off: cur, size: size.min(0x7fff_0000), tok: tok(pay) });
+        if end > bytes.len() {
+            break; // the spec rejects this chunk (does not fit); stop here
+        }
+        cur = end;
+    }
+    (v, cur)
+}
+
+fn chunk_events(case: &str, obs: &[Obs], cur: usize, len: usize, evs: &mut Vec<Value>) {
+    for part in obs.chunks(64) {
+        let cs: Vec<Value> =
+            part.iter().map(|o| json!({"tag":o.tag,"off":o.off,"size":o.size,"tok":o.tok})).collect();
+        evs.push(json!({"ev":"Chunks","case":case,"cs":cs}));
+    }
+    evs.push(json!({"ev":"WalkEnd","case":case,"cur":cur,"len":len}));
+}
+
+// ------------------------------------------------------------------------------------------
+// helpers
+// ------------------------------------------------------------------------------------------
+fn name_of_len(n: usize, rng: &mut Rng, i: usize) -> String {
+    // exact byte length n; shared prefix; non-ASCII when there is room
+    let mut s = String::new();
+    let prefix = "World\\wmo\\";
+    for c in prefix.chars() {
+        if s.len() + 1 <= n.saturating_sub(0) && s.len() < n {
+            s.push(c);
+        }
+    }
+    if n >= s.len() + 2 && i % 2 == 0 {
+        s.push('\u{e9}'); // 2 bytes
+    }
+    while s.len() < n {
+        s.push((b'a' + rng.below(26) as u8) as char);
+    }
+    debug_assert_eq!(s.len(), n);
+    s
+}
+
+fn f(rng: &mut Rng) -> f32 {
+    let v = (rng.f32() - 0.5) * 34000.0;
+    if rng.chance(1, 16) {
+        -0.0
+    } else {
+        v
+    }
+}
+fn v3(rng: &mut Rng) -> [f32; 3] {
+    [f(rng), f(rng), f(rng)]
+}
+fn vec3d(rng: &mut Rng) -> Vec3d {
+    Vec3d::new(f(rng), f(rng), f(rng))
+}
+fn bbox(rng: &mut Rng) -> BoundingBox {
+    BoundingBox::new(vec3d(rng), vec3d(rng))
+}
+
+fn tiles_of(c: &Value, k: &str) -> Vec<(u32, u32)> {
+    ga(c, k).iter().map(|t| (t[0].as_u64().unwrap() as u32, t[1].as_u64().unwrap() as u32)).collect()
+}
+fn lens_of(c: &Value, k: &str) -> Vec<usize> {
+    ga(c, k).iter().map(|t| t.as_u64().unwrap() as usize).collect()
+}
+
+fn wow_version(s: &str) -> WowVersion {
+    match s {
+        "Classic" => WowVersion::Classic,
+        "TBC" => WowVersion::TBC,
+        "WotLK" => WowVersion::WotLK,
+        "Cataclysm" => WowVersion::Cataclysm,
+        "MoP" => WowVersion::MoP,
+        "WoD" => WowVersion::WoD,
+        "Legion" => WowVersion::Legion,
+        "BfA" => WowVersion::BfA,
+        "Shadowlands" => WowVersion::Shadowlands,
+        "Dragonflight" => WowVersion::Dragonflight,
+        _ => tool_error(&format!("unknown WDT version {s}")),
+    }
+}
+fn wdl_version(s: &str) -> WdlVersion {
+    match s {
+        "Vanilla" => WdlVersion::Vanilla,
+        "Wotlk" => WdlVersion::Wotlk,
+        "Cataclysm" => WdlVersion::Cataclysm,
+        "Mop" => WdlVersion::Mop,
+        "Wod" => WdlVersion::Wod,
+        "Legion" => WdlVersion::Legion,
+        "Bfa" => WdlVersion::Bfa,
+        "Shadowlands" => WdlVersion::Shadowlands,
+        "Dragonflight" => WdlVersion::Dragonflight,
+        "Latest" => WdlVersion::Latest,
+        _ => tool_error(&format!("unknown WDL version {s}")),
+    }
+}
+
+fn outcome<T, E: std::fmt::Debug>(o: Outcome<Result<T, E>>) -> (String, Option<T>) {
+    match o {
+        Outcome::Done(Ok(v)) => ("ok".into(), Some(v)),
+        Outcome::Done(Err(e)) => (format!("err:{}", variant_name(&e)), None),
+        Outcome::Panic(_) => ("panic".into(), None),
+        Outcome::Hang => ("hang".into(), None),
+    }
+}
+
+// ------------------------------------------------------------------------------------------
+// WDT
+// ------------------------------------------------------------------------------------------
+/// Semantic projection of the MPHD chunk: flag bits and the seven u32 that follow, as the format
+/// defines them (legacy fields without the MAID flag, FileDataIDs with it).
+fn mphd_tok(m: &MphdChunk) -> String {
+    let vals: Vec<u32> = if m.has_maid() {
+        vec![
+            m.lgt_file_data_id.unwrap_or(0),
+            m.occ_file_data_id.unwrap_or(0),
+            m.fogs_file_data_id.unwrap_or(0),
+            m.mpv_file_data_id.unwrap_or(0),
+            m.tex_file_data_id.unwrap_or(0),
+            m.wdl_file_data_id.unwrap_or(0),
+            m.pd4_file_data_id.unwrap_or(0),
+        ]
+    } else {
+        let mut v = vec![m.something];
+        v.extend_from_slice(&m.unused);
+        v
+    };
+    dtok(&(m.flags.bits(), vals))
+}
+fn wdt_toks(w: &WdtFile) -> Value {
+    json!({"mphd": mphd_tok(&w.mphd), "main": dtok(&w.main), "maid": dtok(&w.maid), "mwmo": dtok(&w.mwmo), "modf": dtok(&w.modf)})
+}
+fn no_toks_wdt() -> Value {
+    json!({"mphd":"-","main":"-","maid":"-","mwmo":"-","modf":"-"})
+}
+fn wdt_write(w: &WdtFile) -> (String, Option<Vec<u8>>) {
+    outcome(guarded(|| {
+        let mut buf = Vec::new();
+        WdtWriter::new(&mut buf).write(w).map(|_| buf)
+    }))
+}
+fn wdt_read(bytes: &[u8], hint: WowVersion) -> (String, Option<WdtFile>) {
+    outcome(guarded(|| WdtReader::new(Cursor::new(bytes.to_vec()), hint).read()))
+}
+
+fn build_wdt(c: &Value, rng: &mut Rng) -> WdtFile {
+    let ver = wow_version(gs(c, "ver"));
+    let mut w = WdtFile::new(ver);
+    let mut bits = 0u32;
+    for b in ga(c, "flags") {
+        bits |= b.as_u64().unwrap() as u32;
+    }
+    w.mphd.flags = MphdFlags::from_bits(bits).unwrap_or_else(|| tool_error("flag bits outside MphdFlags"));
+    if w.mphd.has_maid() {
+        w.mphd.set_file_data_ids(FileDataIds {
+            lgt: rng.next_u32(),
+            occ: rng.next_u32(),
+            fogs: rng.next_u32(),
+            mpv: rng.next_u32(),
+            tex: rng.next_u32(),
+            wdl: rng.next_u32(),
+            pd4: rng.next_u32(),
+        });
+    } else {
+        w.mphd.something = rng.next_u32();
+        for u in w.mphd.unused.iter_mut() {
+            *u = rng.next_u32();
+        }
+    }
+    let tiles = tiles_of(c, "tiles");
+    let mut present = vec![false; 4096];
+    for (x, y) in &tiles {
+        present[(*y * 64 + *x) as usize] = true;
+    }
+    for y in 0..64usize {
+        for x in 0..64usize {
+            let e = w.main.get_mut(x, y).unwrap();
+            e.area_id = rng.next_u32();
+            e.flags = (present[y * 64 + x] as u32) | ((rng.below(8) as u32) << 1);
+        }
+    }
+    if gb(c, "hasMaid") {
+        let n = gi(c, "nSec") as usize;
+        let mut m = MaidChunk::with_section_count(n);
+        for s in MaidSection::all().iter().filter(|s| s.index() < n) {
+            for y in 0..64usize {
+                for x in 0..64usize {
+                    let mut id = rng.next_u32() | 1;
+                    if s.index() == 0 && !present[y * 64 + x] {
+                        id = 0;
+                    }
+                    m.set(*s, x, y, id).unwrap();
+                }
+            }
+        }
+        w.maid = Some(m);
+    }
+    if gb(c, "hasMwmo") {
+        let mut m = MwmoChunk::new();
+        for (i, n) in lens_of(c, "names").iter().enumerate() {
+            m.add_filename(name_of_len(*n, rng, i));
+        }
+        w.mwmo = Some(m);
+    }
+    if gb(c, "hasModf") {
+        let mut m = ModfChunk::new();
+        for _ in 0..gi(c, "nModf") {
+            m.add_entry(ModfEntry {
+                id: rng.next_u32(),
+                unique_id: rng.next_u32(),
+                position: v3(rng),
+                rotation: v3(rng),
+                lower_bounds: v3(rng),
+                upper_bounds: v3(rng),
+                flags: rng.next_u32() as u16,
+                doodad_set: rng.next_u32() as u16,
+                name_set: rng.next_u32() as u16,
+                scale: rng.next_u32() as u16,
+            });
+        }
+        w.modf = Some(m);
+    }
+    w
+}
+
+fn run_wdt(case: &str, c: &Value, rng: &mut Rng) -> Vec<Value> {
+    let mut evs = Vec::new();
+    let ver_s = gs(c, "ver");
+    let ver = wow_version(ver_s);
+    evs.push(json!({"ev":"Reset","case":case,"fmt":"wdt","ver":ver_s,"grid":gs(c,"grid"),"flags":c["flags"],
+        "hasMwmo":c["hasMwmo"],"names":c["names"],"hasModf":c["hasModf"],"nModf":c["nModf"],"hasMaid":c["hasMaid"],"nSec":c["nSec"],
+        "tiles":c["tiles"],"holes":[],"nIdx":0,"nPlace":0,"nMldd":0,"nMlmd":0,"mode":"same"}));
+    let src = build_wdt(c, rng);
+    let warnings = src.validate();
+    evs.push(json!({"ev":"Source","case":case,"toks":wdt_toks(&src),"tiles":[],"warnings":warnings.len()}));
+    let (res, bytes) = wdt_write(&src);
+    let bytes = bytes.unwrap_or_default();
+    evs.push(json!({"ev":"Write","case":case,"res":res,"len":bytes.len(),"tok":tok(&bytes)}));
+    if res != "ok" {
+        return evs;
+    }
+    let (obs, cur) = walk(&bytes);
+    chunk_events(case, &obs, cur, bytes.len(), &mut evs);
+    let (pres, parsed) = wdt_read(&bytes, ver);
+    match &parsed {
+        Some(p) => evs.push(json!({"ev":"Parse","case":case,"mode":"same","res":pres,"det":format!("{:?}", p.version()),"toks":wdt_toks(p)})),
+        None => evs.push(json!({"ev":"Parse","case":case,"mode":"same","res":pres,"det":"-","toks":no_toks_wdt()})),
+    }
+    if let Some(p) = &parsed {
+        let (r2, b2) = wdt_write(p);
+        let b2 = b2.unwrap_or_default();
+        evs.push(json!({"ev":"Rewrite","case":case,"mode":"same","res":r2,"len":b2.len(),"tok":tok(&b2)}));
+    }
+    for to_s in ga(c, "conv") {
+        let to_s = to_s.as_str().unwrap();
+        let to = wow_version(to_s);
+        let mut w = src.clone();
+        let (cres, _) = outcome(guarded(|| convert_wdt(&mut w, ver, to)));
+        if cres != "ok" {
+            evs.push(json!({"ev":"Convert","case":case,"to":to_s,"res":cres,"toks":no_toks_wdt(),"wres":"-","ptoks":no_toks_wdt(),"fl":0,"hm":false,"hw":false,"hd":false}));
+            continue;
+        }
+        let toks = wdt_toks(&w);
+        let (fl, hm, hw, hd) = (w.mphd.flags.bits(), w.maid.is_some(), w.mwmo.is_some(), w.modf.is_some());
+        let (wres, wb) = wdt_write(&w);
+        let mut ptoks = no_toks_wdt();
+        let mut wres2 = wres.clone();
+        if let Some(wb) = wb {
+            let (pr, pp) = wdt_read(&wb, to);
+            wres2 = if pr == "ok" { wres } else { format!("parse-{pr}") };
+            if let Some(pp) = pp {
+                ptoks = wdt_toks(&pp);
+            }
+        }
+        evs.push(json!({"ev":"Convert","case":case,"to":to_s,"res":cres,"toks":toks,"wres":wres2,"ptoks":ptoks,"fl":fl,"hm":hm,"hw":hw,"hd":hd}));
+    }
+    evs
+}
+
+// ------------------------------------------------------------------------------------------
+// WDL
+// ------------------------------------------------------------------------------------------
+fn heights_bytes(h: &HeightMapTile) -> Vec<u8> {
+    let mut v = Vec::with_capacity(1090);
+    for x in h.outer_values.iter().chain(h.inner_values.iter()) {
+        v.extend_from_slice(&x.to_le_bytes());
+    }
+    v
+}
+fn holes_bytes(h: &HolesData) -> Vec<u8> {
+    let mut v = Vec::with_capacity(32);
+    for x in h.hole_masks.iter() {
+        v.extend_from_slice(&x.to_le_bytes());
+    }
+    v
+}
+fn sorted_keys<T>(m: &std::collections::HashMap<(u32, u32), T>) -> Vec<(u32, u32)> {
+    let mut k: Vec<(u32, u32)> = m.keys().copied().collect();
+    k.sort_by_key(|(x, y)| (*y, *x));
+    k
+}
+fn wdl_toks(w: &WdlFile) -> Value {
+    let mut ts = String::new();
+    for k in sorted_keys(&w.heightmap_tiles) {
+        ts.push_str(&format!("{},{}:{};", k.0, k.1, tok(&heights_bytes(&w.heightmap_tiles[&k]))));
+    }
+    let mut hs = String::new();
+    for k in sorted_keys(&w.holes_data) {
+        hs.push_str(&format!("{},{}:{};", k.0, k.1, tok(&holes_bytes(&w.holes_data[&k]))));
+    }
+    json!({"tiles": tok(ts.as_bytes()), "holes": tok(hs.as_bytes()), "mwmo": dtok(&w.wmo_filenames), "mwid": dtok(&w.wmo_indices),
+           "modf": dtok(&w.wmo_placements), "mldd": dtok(&w.m2_placements), "mldx": dtok(&w.m2_visibility),
+           "mlmd": dtok(&w.wmo_legion_placements), "mlmx": dtok(&w.wmo_legion_visibility)})
+}
+fn no_toks_wdl() -> Value {
+    json!({"tiles":"-","holes":"-","mwmo":"-","mwid":"-","modf":"-","mldd":"-","mldx":"-","mlmd":"-","mlmx":"-"})
+}
+fn wdl_write(p: &WdlParser, w: &WdlFile) -> (String, Option<Vec<u8>>) {
+    outcome(guarded(|| {
+        let mut cur = Cursor::new(Vec::new());
+        p.write(&mut cur, w).map(|_| cur.into_inner())
+    }))
+}
+fn wdl_parse(p: &WdlParser, bytes: &[u8]) -> (String, Option<WdlFile>) {
+    outcome(guarded(|| p.parse(&mut Cursor::new(bytes.to_vec()))))
+}
+fn m2p(rng: &mut Rng) -> M2Placement {
+    M2Placement { id: rng.next_u32(), m2_id: rng.next_u32(), position: vec3d(rng), rotation: vec3d(rng), scale: f(rng), flags: rng.next_u32() }
+}
+fn m2v(rng: &mut Rng) -> M2VisibilityInfo {
+    M2VisibilityInfo { bounds: bbox(rng), radius: f(rng) }
+}
+
+fn build_wdl(c: &Value, rng: &mut Rng) -> WdlFile {
+    let ver = wdl_version(gs(c, "ver"));
+    let mut w = WdlFile::with_version(ver);
+    for (x, y) in tiles_of(c, "tiles") {
+        let mut h = HeightMapTile::new();
+        for v in h.outer_values.iter_mut().chain(h.inner_values.iter_mut()) {
+            *v = rng.next_u32() as i16;
+        }
+        w.heightmap_tiles.insert((x, y), h);
+    }
+    for (x, y) in tiles_of(c, "holes") {
+        let mut h = HolesData::new();
+        for m in h.hole_masks.iter_mut() {
+            *m = rng.next_u32() as u16;
+        }
+        w.holes_data.insert((x, y), h);
+    }
+    for (i, n) in lens_of(c, "names").iter().enumerate() {
+        w.wmo_filenames.push(name_of_len(*n, rng, i));
+    }
+    let nidx = gi(c, "nIdx") as u32;
+    for _ in 0..nidx {
+        w.wmo_indices.push(rng.next_u32());
+    }
+    for _ in 0..gi(c, "nPlace") {
+        w.wmo_placements.push(ModelPlacement {
+            id: rng.next_u32(),
+            wmo_id: rng.below(nidx.max(1) as u64) as u32,
+            position: vec3d(rng),
+            rotation: vec3d(rng),
+            bounds: bbox(rng),
+            flags: rng.next_u32() as u16,
+            doodad_set: rng.next_u32() as u16,
+            name_set: rng.next_u32() as u16,
+            padding: rng.next_u32() as u16,
+        });
+    }
+    for _ in 0..gi(c, "nMldd") {
+        w.m2_placements.push(m2p(rng));
+        w.m2_visibility.push(m2v(rng));
+    }
+    for _ in 0..gi(c, "nMlmd") {
+        w.wmo_legion_placements.push(m2p(rng));
+        w.wmo_legion_visibility.push(m2v(rng));
+    }
+    w
+}
+
+fn run_wdl(case: &str, c: &Value, rng: &mut Rng) -> Vec<Value> {
+    let mut evs = Vec::new();
+    let ver_s = gs(c, "ver");
+    let ver = wdl_version(ver_s);
+    let mode = gs(c, "mode");
+    evs.push(json!({"ev":"Reset","case":case,"fmt":"wdl","ver":ver_s,"grid":gs(c,"grid"),"flags":[],
+        "hasMwmo":false,"names":c["names"],"hasModf":false,"nModf":0,"hasMaid":false,"nSec":0,
+        "tiles":c["tiles"],"holes":c["holes"],"nIdx":c["nIdx"],"nPlace":c["nPlace"],"nMldd":c["nMldd"],"nMlmd":c["nMlmd"],"mode":mode}));
+    let src = build_wdl(c, rng);
+    let tl: Vec<Value> = sorted_keys(&src.heightmap_tiles)
+        .iter()
+        .map(|k| {
+            let o = src.holes_data.get(k).map(|h| tok(&holes_bytes(h))).unwrap_or_default();
+            json!([k.0, k.1, tok(&heights_bytes(&src.heightmap_tiles[k])), o])
+        })
+        .collect();
+    evs.push(json!({"ev":"Source","case":case,"toks":wdl_toks(&src),"tiles":tl,"warnings":0}));
+    let wp = WdlParser::with_version(ver);
+    let (res, bytes) = wdl_write(&wp, &src);
+    let bytes = bytes.unwrap_or_default();
+    evs.push(json!({"ev":"Write","case":case,"res":res,"len":bytes.len(),"tok":tok(&bytes)}));
+    if res != "ok" {
+        return evs;
+    }
+    let (obs, cur) = walk(&bytes);
+    chunk_events(case, &obs, cur, bytes.len(), &mut evs);
+    // offset table, read from the bytes: [index, target, 1-based index of the chunk whose header starts there]
+    if let Some(m) = obs.iter().find(|o| o.tag == "MAOF") {
+        let n = m.size / 4;
+        let offs: Vec<usize> = obs.iter().map(|o| o.off).collect();
+        let mut ents = Vec::new();
+        for i in 0..n {
+            let p = m.off + 8 + 4 * i;
+            if p + 4 > bytes.len() {
+                break;
+            }
+            let t = u32::from_le_bytes([bytes[p], bytes[p + 1], bytes[p + 2], bytes[p + 3]]) as usize;
+            if t != 0 {
+                let j = offs.binary_search(&t).map(|k| k + 1).unwrap_or(0);
+                ents.push(json!([i, t.min(0x7fff_0000), j]));
+            }
+        }
+        evs.push(json!({"ev":"Maof","case":case,"size":n,"ents":ents}));
+    } else {
+        evs.push(json!({"ev":"Maof","case":case,"size":0,"ents":[]}));
+    }
+    let pp = if mode == "latest" { WdlParser::new() } else { WdlParser::with_version(ver) };
+    let (pres, parsed) = wdl_parse(&pp, &bytes);
+    match &parsed {
+        Some(p) => evs.push(json!({"ev":"Parse","case":case,"mode":mode,"res":pres,"det":format!("{:?}", p.version),"toks":wdl_toks(p)})),
+        None => evs.push(json!({"ev":"Parse","case":case,"mode":mode,"res":pres,"det":"-","toks":no_toks_wdl()})),
+    }
+    if let Some(p) = &parsed {
+        let (r2, b2) = wdl_write(&pp, p);
+        let b2 = b2.unwrap_or_default();
+        evs.push(json!({"ev":"Rewrite","case":case,"mode":mode,"res":r2,"len":b2.len(),"tok":tok(&b2)}));
+    }
+    for to_s in ga(c, "conv") {
+        let to_s = to_s.as_str().unwrap();
+        let to = wdl_version(to_s);
+        let (cres, conv) = outcome(guarded(|| convert_wdl_file(&src, to)));
+        let Some(w) = conv else {
+            evs.push(json!({"ev":"Convert","case":case,"to":to_s,"res":cres,"toks":no_toks_wdl(),"wres":"-","ptoks":no_toks_wdl(),"fl":0,"hm":false,"hw":false,"hd":false}));
+            continue;
+        };
+        let toks = wdl_toks(&w);
+        let tp = WdlParser::with_version(to);
+        let (wres, wb) = wdl_write(&tp, &w);
+        let mut ptoks = no_toks_wdl();
+        let mut wres2 = wres.clone();
+        if let Some(wb) = wb {
+            let (pr, p2) = wdl_parse(&tp, &wb);
+            wres2 = if pr == "ok" { wres } else { format!("parse-{pr}") };
+            if let Some(p2) = p2 {
+                ptoks = wdl_toks(&p2);
+            }
+        }
+        evs.push(json!({"ev":"Convert","case":case,"to":to_s,"res":cres,"toks":toks,"wres":wres2,"ptoks":ptoks,"fl":0,"hm":false,"hw":false,"hd":false}));
+    }
+    evs
+}
+
+// ------------------------------------------------------------------------------------------
+// coordinates: all 4096 tiles
+// ------------------------------------------------------------------------------------------
+fn run_coord(case: &str) -> Vec<Value> {
+    let mut evs = Vec::new();
+    for ty in 0..64u32 {
+        if ty % 4 == 0 {
+            evs.push(json!({"ev":"Reset","case":case,"fmt":"coord","ver":"-","grid":"-","flags":[],
+                "hasMwmo":false,"names":[],"hasModf":false,"nModf":0,"hasMaid":false,"nSec":0,
+                "tiles":[],"holes":[],"nIdx":0,"nPlace":0,"nMldd":0,"nMlmd":0,"mode":"same"}));
+        }
+        for tx in 0..64u32 {
+            let r = guarded(|| {
+                let (wx, wy) = tile_to_world(tx, ty);
+                let (bx, by) = world_to_tile(wx, wy);
+                (wx, wy, bx, by)
+            });
+            match r {
+                Outcome::Done((wx, wy, bx, by)) => evs.push(json!({"ev":"Coord","case":case,"res":"ok","tx":tx,"ty":ty,
+                    "wxm":(wx as f64 * 1000.0).round() as i64,"wym":(wy as f64 * 1000.0).round() as i64,"bx":bx,"by":by})),
+                _ => evs.push(json!({"ev":"Coord","case":case,"res":"panic","tx":tx,"ty":ty,"wxm":0,"wym":0,"bx":0,"by":0})),
+            }
+        }
+    }
+    evs
+}
+
+fn main() {
+    let a = args();
+    install_quiet_panic_hook();
+    let cases = read_cases(&a.cases);
+    let trace = Trace::create(&a.trace);
+    let seed = seed();
+    let only: Option<usize> = a.extra.first().and_then(|s| s.parse().ok());
+    let results: Vec<std::sync::Mutex<Vec<Value>>> = (0..cases.len()).map(|_| std::sync::Mutex::new(Vec::new())).collect();
+    par_for(cases.len(), ncpu().min(8), |ci| {
+        if let Some(o) = only {
+            if o != ci {
+                return;
+            }
+        }
+        let c = &cases[ci];
+        let kind = gs(c, "kind");
+        let case = format!("{ci}:{kind}");
+        let mut rng = Rng::derive(seed, &case);
+        let evs = match kind {
+            "wdt" => run_wdt(&case, c, &mut rng),
+            "wdl" => run_wdl(&case, c, &mut rng),
+            "coord" => run_coord(&case),
+            _ => tool_error(&format!("unknown case kind {kind}")),
+        };
+        *results[ci].lock().unwrap() = evs;
+    });
+    // deterministic order: by case index
+    for r in results {
+        trace.block(r.into_inner().unwrap());
+    }
+    trace.flush();
+}
